@@ -7,6 +7,8 @@ import gen
 
 
 def run(res, replay=None):
+    # pinned reading of the serialisation code (serialization.py, Coalescent / Inference __getstate__ / __setstate__ / to_json): re-check the CURRENT source against it and proofs/GenSerialEquiv.v
+    import translate_step; (res.proof is not None) and translate_step.run(res.proof, pid=res.pid, tie='serial')
     rng = random.Random(res.seed)
     res.rule = ('serial stream: configurations over all three models, one and two loci, 1-3 demes, demographies built from '
                 'discrete events (dicts, PopSizeChange(s), MigrationRateChange(s), PopulationSplit), start/end times: '
